@@ -843,6 +843,9 @@ func randomConfig(rng *rand.Rand, kind string) config {
 				c.Pools[i].RA, c.Pools[i].RB = 1_000_000_000, 10_000_000
 			}
 		}
+	case "nomin": // the minimum-value filter switched off: a zero amount of the base denomination; rewards in
+		// the base denomination only (no pools: nothing else is valuable), every positive share is paid
+		c.MinDenom, c.MinAmount, c.Pools = "uosmo", 0, nil
 	default: // thresholds of a few units
 		c.MinAmount = 1 + int64(rng.Intn(25))
 	}
@@ -859,7 +862,7 @@ func buildWorld(t *testing.T, c config, kind string) (*world, config) {
 			if kind == "above" && v >= 0 && v <= 100 {
 				low = true
 			}
-			if kind != "zero" && v == 0 {
+			if kind != "zero" && kind != "nomin" && v == 0 {
 				low = true
 			}
 		}
@@ -889,6 +892,9 @@ func TestRecord(t *testing.T) {
 		kind := "below"
 		if h%3 == 2 {
 			kind = "above"
+		}
+		if h%6 == 4 {
+			kind = "nomin"
 		}
 		if k := os.Getenv("VERIF_KIND"); k != "" {
 			kind = k
